@@ -29,30 +29,72 @@
 (*                  connections and reloads happened and either all uses   *)
 (*                  did or no connection was admitted (nothing to use);    *)
 (*                  printed as <<"RSCRIPT", json>>.                        *)
-(* On every state TLC checks Undisturbed, Fresh, ConfigKept and            *)
-(* Authenticated.                                                          *)
+(* kind = "rot":    duplex scripts with ROTATION of the client CA in place  *)
+(*                  (mutual TLS): Rotate is a fourth operation, and a       *)
+(*                  connection is ConnectAs(cc) for cc = no certificate or  *)
+(*                  the client certificate of any generation of the CA that *)
+(*                  exists (the retired ones, the one at the path now), so  *)
+(*                  that a handshake probes WHICH generation is in force:   *)
+(*                  before the rotation, between rotation and reload (the   *)
+(*                  old one still), after the reload (the new one).  Bounds *)
+(*                  RotConn / RotReload / RotRotate / RotUse; printed as    *)
+(*                  <<"SCRIPT", json>> (hist[i] carries cc, and conn = 0    *)
+(*                  for a handshake that must be refused).                  *)
+(* kind = "rrot":   the same through the real server (rotate = overwrite    *)
+(*                  the --tls-ca file, reload = SIGUSR1); bounds RRot*;     *)
+(*                  printed as <<"RSCRIPT", json>>.                         *)
+(* kind = "rfail":  real-server scripts with FAILED reloads (op "botch": the  *)
+(*                  key file is unusable when SIGUSR1 arrives): every        *)
+(*                  interleaving of FConn connections of the client that    *)
+(*                  was set up for the server, FBotch failed reloads,       *)
+(*                  FReload reloads and FUse uses, for c.mtls in FailMtls;  *)
+(*                  printed as <<"RSCRIPT", json>>.                         *)
+(* kind = "client": the client-side machine (c) of TlsAuth.tla: every       *)
+(*                  interleaving of CliConn connections (the server's       *)
+(*                  certificate issued by any generation of the roots CA    *)
+(*                  that exists, or by another CA) and CliRotate            *)
+(*                  replacements of the roots file in place; printed as     *)
+(*                  <<"CSCRIPT", json>>.                                    *)
+(* Extra \subseteq {"rot", "rrot", "rfail", "client"} selects the last     *)
+(* four.                                                                   *)
+(* On every state TLC checks Undisturbed, Fresh, ConfigKept, CAFollows,    *)
+(* JudgedAsConfigured, Authenticated and ClientFollowsRoots.               *)
 (***************************************************************************)
-EXTENDS TlsAuth, TLC, Json
+EXTENDS TlsAuth, Json
 
 CONSTANTS MaxConn, MaxReload, MaxUse, Mtls,
-          RMaxConn, RMaxReload, RMaxUse, RealMtls
+          RMaxConn, RMaxReload, RMaxUse, RealMtls,
+          RotConn, RotReload, RotRotate, RotUse,
+          RRotConn, RRotReload, RRotRotate, RRotUse,
+          CliConn, CliRotate,
+          FConn, FReload, FBotch, FUse, FailMtls,
+          Extra
+
+ASSUME Extra \subseteq {"rot", "rrot", "client", "rfail"}
 
 VARIABLES kind, c, hist, obs
 
-vars == <<kind, c, hist, obs, identityVersion, live, conns, wantCA, liveCA>>
+vars == <<kind, c, hist, obs, identityVersion, live, conns, wantCA, liveCA, wantGen, liveGen, dueGen, botched,
+          rootsGen, rootsRead, cseen>>
 
 Count(op) == Cardinality({i \in DOMAIN hist : hist[i].op = op})
 
 Bound(op) ==
-  IF kind = "real"
-  THEN CASE op = "connect" -> RMaxConn [] op = "reload" -> RMaxReload [] OTHER -> RMaxUse
-  ELSE CASE op = "connect" -> MaxConn [] op = "reload" -> MaxReload [] OTHER -> MaxUse
+  CASE kind = "real"   -> (CASE op = "connect" -> RMaxConn [] op = "reload" -> RMaxReload [] op = "use" -> RMaxUse [] OTHER -> 0)
+    [] kind = "rot"    -> (CASE op = "connect" -> RotConn [] op = "reload" -> RotReload [] op = "rotate" -> RotRotate [] op = "use" -> RotUse [] OTHER -> 0)
+    [] kind = "rrot"   -> (CASE op = "connect" -> RRotConn [] op = "reload" -> RRotReload [] op = "rotate" -> RRotRotate [] op = "use" -> RRotUse [] OTHER -> 0)
+    [] kind = "rfail"  -> (CASE op = "connect" -> FConn [] op = "reload" -> FReload [] op = "botch" -> FBotch [] op = "use" -> FUse [] OTHER -> 0)
+    [] kind = "client" -> (CASE op = "connect" -> CliConn [] op = "rotate" -> CliRotate [] OTHER -> 0)
+    [] OTHER           -> (CASE op = "connect" -> MaxConn [] op = "reload" -> MaxReload [] op = "use" -> MaxUse [] OTHER -> 0)
 
 Init ==
   /\ hist = <<>> /\ obs = <<>>
   /\ \/ kind = "case" /\ c \in Cases /\ MInitWith(c.serverClientCA)
      \/ kind = "script" /\ c \in [mtls : Mtls] /\ MInitWith(CAOf(c.mtls))
      \/ kind = "real" /\ c \in [mtls : RealMtls] /\ MInitWith(CAOf(c.mtls))
+     \/ kind \in Extra \cap {"rot", "rrot"} /\ c = [mtls |-> TRUE] /\ MInitWith("configured")
+     \/ kind \in Extra \cap {"client"} /\ c = [mtls |-> FALSE] /\ MInitWith("none")
+     \/ kind \in Extra \cap {"rfail"} /\ c \in [mtls : FailMtls] /\ MInitWith(CAOf(c.mtls))
 
 DoConnect ==
   /\ Count("connect") < Bound("connect")
@@ -60,7 +102,7 @@ DoConnect ==
   /\ hist' = Append(hist, [op |-> "connect", conn |-> Len(conns) + 1])
   /\ obs' = Append(obs, live)
 
-\* real-server mode: the client presents cc; obs = what the property demands of this handshake
+\* the client presents cc; obs = what the property demands of this handshake
 DoConnectAs(cc) ==
   /\ Count("connect") < Bound("connect")
   /\ ConnectAs(cc)
@@ -73,35 +115,72 @@ DoReload ==
   /\ hist' = Append(hist, [op |-> "reload", conn |-> 0])
   /\ obs' = Append(obs, identityVersion + 1)
 
+\* the client CA bundle is replaced in place; obs = the generation at the path afterwards
+DoRotate ==
+  /\ Count("rotate") < Bound("rotate")
+  /\ Rotate
+  /\ hist' = Append(hist, [op |-> "rotate", conn |-> 0])
+  /\ obs' = Append(obs, wantGen + 1)
+
+\* a reload request that fails; obs = the identity that keeps serving
+DoBotch ==
+  /\ Count("botch") < Bound("botch")
+  /\ BotchedReload
+  /\ hist' = Append(hist, [op |-> "botch", conn |-> 0])
+  /\ obs' = Append(obs, live)
+
 DoUse(x) ==
   /\ Count("use") < Bound("use")
   /\ Use(x)
   /\ hist' = Append(hist, [op |-> "use", conn |-> x])
   /\ obs' = Append(obs, IF Works(x) THEN Sees(x) ELSE 0 - 1)
 
+\* what the clients of the rotation scripts present: nothing, or the certificate of a generation of the CA
+RotCerts == {"none"} \cup GenNames(wantGen)
+
+\* client side
+DoCConnect(srv) ==
+  /\ Count("connect") < Bound("connect")
+  /\ CConnect(srv)
+  /\ hist' = Append(hist, [op |-> "connect", srv |-> srv])
+  /\ obs' = Append(obs, [outcome |-> CConnectOutcome(srv), roots |-> rootsGen])
+
+DoCRotate ==
+  /\ Count("rotate") < Bound("rotate")
+  /\ CRotate
+  /\ hist' = Append(hist, [op |-> "rotate", srv |-> ""])
+  /\ obs' = Append(obs, rootsGen + 1)
+
 Next ==
   /\ UNCHANGED <<kind, c>>
   /\ \/ kind = "script" /\ (DoConnect \/ DoReload \/ \E x \in DOMAIN conns : DoUse(x))
      \/ kind = "real" /\ ((\E cc \in ClientCerts : DoConnectAs(cc)) \/ DoReload \/ \E x \in DOMAIN conns : DoUse(x))
+     \/ kind \in {"rot", "rrot"} /\ ((\E cc \in RotCerts : DoConnectAs(cc)) \/ DoReload \/ DoRotate
+                                       \/ \E x \in DOMAIN conns : DoUse(x))
+     \/ kind = "rfail" /\ (DoConnectAs(RightCert) \/ DoReload \/ DoBotch \/ \E x \in DOMAIN conns : DoUse(x))
+     \/ kind = "client" /\ ((\E srv \in CPresentable : DoCConnect(srv)) \/ DoCRotate)
 
 Spec == Init /\ [][Next]_vars
 
 Complete ==
-  /\ Count("connect") = Bound("connect") /\ Count("reload") = Bound("reload")
-  /\ Count("use") = Bound("use") \/ (kind = "real" /\ conns = <<>>)
+  /\ Count("connect") = Bound("connect") /\ Count("reload") = Bound("reload") /\ Count("rotate") = Bound("rotate")
+  /\ Count("botch") = Bound("botch")
+  /\ Count("use") = Bound("use") \/ (kind \in {"real", "rot", "rrot", "rfail"} /\ conns = <<>>)
 
 TypeOK ==
   /\ MTypeOK
-  /\ kind \in {"case", "script", "real"}
+  /\ kind \in {"case", "script", "real", "rot", "rrot", "rfail", "client"}
   /\ kind = "case" => c \in Cases /\ hist = <<>> /\ Expected(c) \subseteq Outcomes
   /\ Len(obs) = Len(hist)
 
 Emit ==
   CASE kind = "case" ->
          PrintT(<<"CASE", ToJson([case |-> c, exp |-> Expected(c), asks |-> ServerAsksForCert(c)])>>)
-    [] kind = "script" /\ Complete ->
+    [] kind \in {"script", "rot"} /\ Complete ->
          PrintT(<<"SCRIPT", ToJson([mtls |-> c.mtls, ops |-> hist, exp |-> obs])>>)
-    [] kind = "real" /\ Complete ->
+    [] kind \in {"real", "rrot", "rfail"} /\ Complete ->
          PrintT(<<"RSCRIPT", ToJson([mtls |-> c.mtls, ops |-> hist, exp |-> obs])>>)
+    [] kind = "client" /\ Complete ->
+         PrintT(<<"CSCRIPT", ToJson([ops |-> hist, exp |-> obs])>>)
     [] OTHER -> TRUE
 =============================================================================
